@@ -1,5 +1,5 @@
 (** C04 - Sender obeys flow control from any peer and always terminates (structural part). *)
-From IsoTp Require Import Base.Prelude Model.Micro Spec.ConfigSpec Proofs.Inv Proofs.FsmProps Proofs.PacingP Proofs.BlockP.
+From IsoTp Require Import Base.Prelude Model.Micro Spec.ConfigSpec Proofs.Inv Proofs.FsmProps Proofs.PacingP Proofs.BlockP Proofs.ProgressP.
 
 (** No wedge: in every reachable state an active transmitter is waiting with a running N_Bs
     deadline, or pacing Consecutive Frames with a running STmin timer and a known block size,
@@ -59,6 +59,28 @@ Proof. exact tx_pass_block. Qed.
 Theorem C04_block_run : forall c t0 ms, granted c (init_layer c t0) 0 ms.
 Proof. exact granted_from_init. Qed.
 
+(** Termination.  C04_nowedge: a transmitter that is not idle always has a deadline or pacing timer
+    running (or a frame in standby).  When the flow-control deadline passes, the next pass aborts the
+    request (C07_tx_fires).  When the separation time has passed and the rate limiter allows the next
+    frame, the pass emits a frame or ends the request - it never stays put ... *)
+Theorem C04_cf_progress : forall c a s evs rbs r,
+  remote_bs s = Some rbs -> active s = Some r -> 0 <= r_remaining r -> 0 < p_tx_dl (c_p c) - 1 - zlen (c_tx_prefix c) ->
+  timer_timed_out (now s) (timer_tx_stmin s) = true ->
+  Z.min (p_tx_dl (c_p c) - 1 - zlen (c_tx_prefix c)) (r_remaining r) <= a ->
+  tr_crash (tx_cf c a s evs) = false ->
+  tr_msg (tx_cf c a s evs) <> None \/ tx_state (tr_s (tx_cf c a s evs)) = TxIdle.
+Proof. exact cf_progress. Qed.
+
+(** ... and every Consecutive Frame strictly decreases the bytes still to send (the ranking function):
+    a request of [size] bytes is finished or aborted after at most [size] emitting passes. *)
+Theorem C04_cf_decreases : forall c a s evs rbs r m,
+  remote_bs s = Some rbs -> active s = Some r -> tr_msg (tx_cf c a s evs) = Some m ->
+  match active (tr_s (tx_cf c a s evs)) with
+  | Some r' => r_id r' = r_id r /\ r_remaining r' < r_remaining r
+  | None => True
+  end.
+Proof. exact cf_decreases. Qed.
+
 Print Assumptions C04_nowedge.
 Print Assumptions C04_overflow.
 Print Assumptions C04_wait0.
@@ -67,3 +89,5 @@ Print Assumptions C04_wait_ok.
 Print Assumptions C04_block.
 Print Assumptions C04_block_pass.
 Print Assumptions C04_block_run.
+Print Assumptions C04_cf_progress.
+Print Assumptions C04_cf_decreases.
